@@ -199,7 +199,7 @@ func c12Spec(rng *rand.Rand, i int) (*SessSpec, string) {
 }
 
 // c12Extra: kinds added after the fourth round of seeded changes.
-func c12Extra(rng *rand.Rand, kind string) *SessSpec {
+func c12Extra(rng *rand.Rand, kind string, j int) *SessSpec {
 	sp := &SessSpec{NumVB: 2 + rng.Intn(4), Nodes: 1, AckSeed: rng.Int63(), PNow: 1, Backend: "mem", Backlog: map[int][][]ItemSpec{}, API: true}
 	o := &HistOpts{NumVB: sp.NumVB, PSystem: 0.05, PSeqAdv: 0.1, MaxItems: 4}
 	ctr := 0
@@ -211,7 +211,7 @@ func c12Extra(rng *rand.Rand, kind string) *SessSpec {
 	case "reopen-refused":
 		// every re-open attempt after a transient end is refused: the library gives up with a fatal error after its retries
 		// (fail-stop) or keeps trying; it must neither carry on without the vBucket nor count it as ended for good
-		sp.ReqFail = map[int][2]int{vb: {2, []int{0x24, 0x84, 0x02}[rng.Intn(3)]}} // also KEY_EEXISTS ("the producer says it streams this vBucket")
+		sp.ReqFail = map[int][2]int{vb: {2, []int{0x02, 0x24, 0x84}[j%3]}} // also KEY_EEXISTS ("the producer says it streams this vBucket")
 		sp.ReqFailFrom = true
 		sp.Steps = []Step{{Op: "barrier"}, {Op: "metrics"}, {Op: "end", VB: vb, St: transientStatus[rng.Intn(4)]}, {Op: "sleep", Ms: 7500}, {Op: "metrics"}, {Op: "waitstop", Ms: 150}}
 	case "retry-vs-rebalance":
@@ -512,7 +512,7 @@ func init() {
 			xr := rand.New(rand.NewSource(seed*131 + 7))
 			for j := 0; j < n/80; j++ {
 				for _, k := range []string{"reopen-refused", "retry-vs-rebalance", "finite-rebalance", "rebalanced-allfinal"} {
-					out = append(out, drv.Scenario{Kind: k, Seed: seed, Params: mustJSON(c12Extra(xr, k)), TimeoutS: 120})
+					out = append(out, drv.Scenario{Kind: k, Seed: seed, Params: mustJSON(c12Extra(xr, k, j)), TimeoutS: 120})
 				}
 			}
 			return out
